@@ -30,7 +30,7 @@ func init() {
 			"(R3) the retry after a populated cache is dominated by Populated && !recovered and every recoverCache call of subscribeCmd passes the subscription's two filters; " +
 			"(R4) in cache mode without delta the merged list is cut to its last element before it reaches the reply (a publication buffered during the subscribe cannot add a second one).",
 		NotDecided: "that the history's first element is the newest (broker ordering); the recovered truth table as values.",
-		Rules: map[string]string{"C03.R2": "K2 guards in recoverCache", "C03.R3": "K2 + sibling agreement of call arguments", "C03.R4": "K1/K2: cache-mode trim after merge"},
+		Rules: map[string]string{"C03.R2": "K2 guards in recoverCache", "C03.R3": "K2 + sibling agreement of call arguments", "C03.R4": "K1/K2: cache-mode trim after merge", "C03.R5": "K2: no foreign guard on the scan element in recoverCache"},
 		Run:   runC03,
 	})
 	register(&PropMeta{
@@ -276,7 +276,17 @@ func runC03(c *Ctx) {
 	w := c.W
 	rc := c.Fn("C03.R2", "centrifuge", "(*Node).recoverCache")
 	if rc != nil {
-		tf, stf := paramNamed(rc, "tf"), paramNamed(rc, "serverTf")
+		// the two *tagsFilter parameters, by position (client filter first, server filter second)
+		var tf, stf *ssa.Parameter
+		for _, p := range rc.Params {
+			if typeShort(p.Type()) == "tagsFilter" {
+				if tf == nil {
+					tf = p
+				} else if stf == nil {
+					stf = p
+				}
+			}
+		}
 		if c.Anchor("C03.R2", "filter parameters of recoverCache", tf != nil && stf != nil) {
 			notFilteredBy := func(p *ssa.Parameter) func(Guard) bool {
 				return func(g Guard) bool {
@@ -308,6 +318,25 @@ func runC03(c *Ctx) {
 				filtered := Guarded(r, notFilteredBy(tf)) && Guarded(r, notFilteredBy(stf))
 				bothNil := Guarded(r, isNilTest(tf)) && Guarded(r, isNilTest(stf))
 				c.Check("C03.R2", r, "recovered publication passed both filters (or both filters are nil)", filtered || bothNil, "cache recovery would deliver a publication the subscription's server or client filter excludes")
+				// R5: nothing but the filters decides which element of the history result is taken —
+				// the newest *visible* publication is the first one both filters let through
+				if filtered {
+					var foreign []string
+					for _, g := range Guards(r) {
+						d := D(g.Cond)
+						if !strings.Contains(d, "Publications[") {
+							continue // not about an element of the history result
+						}
+						if call, ok := g.Cond.(*ssa.Call); ok {
+							if f := call.Call.StaticCallee(); f != nil && f.Name() == "publicationFiltered" {
+								continue
+							}
+						}
+						foreign = append(foreign, g.String())
+					}
+					c.Check("C03.R5", r, "only the tags filters decide which publication of the scan is recovered", len(foreign) == 0,
+						"a publication is skipped by a test other than the filters ("+strings.Join(foreign, "; ")+"): a publication both filters let through (filters can match on missing tags: neq, nin, nex, not) is then not the one delivered, or nothing is recovered although the cache is not empty")
+				}
 			})
 			c.Floor("C03.R2", 2)
 		}
